@@ -211,7 +211,55 @@ def tag_iter_case(_=None):
   return 1, 1, viols, []
 
 
+def bound_method_case(_=None):
+  """Selecting by a bound method (classmethod constructor, method of an instance): every attribute
+  access creates a new bound-method object that is == to the others; the selection reaches exactly
+  the reachable Buildables whose callable equals it."""
+  viols = []
+  def bad(what, name):
+    viols.append(dict(what=what, shape=[], sig='bound-method', store=name, op='', boundmethod=True))
+  inst = pool.Cls(1)
+  def mk():
+    shared = fdl.Config(pool.Model.create, 5)
+    other = fdl.Config(pool.BigModel.create, 6)
+    part = fdl.Partial(pool.Model.create)
+    meth = fdl.Config(inst.__eq__, 3)
+    return fdl.Config(pool.fk, [shared, other], a=shared, b={'p': part, 'm': (meth,)}), [shared, other, part, meth]
+  n = 0
+  for name, target, want_idx, kw in [
+      ('classmethod of the base class', lambda: pool.Model.create, [0, 2], {}),
+      ('classmethod of the base class, match_subclasses=False', lambda: pool.Model.create, [0, 2], {'match_subclasses': False}),
+      ('classmethod reached through the subclass', lambda: pool.BigModel.create, [1], {}),
+      ('classmethod, Partial only', lambda: pool.Model.create, [2], {'buildable_type': fdl.Partial}),
+      ('method of an instance', lambda: inst.__eq__, [3], {}),
+  ]:
+    n += 1
+    root, nodes = mk()
+    want = [nodes[i] for i in want_idx]
+    try:
+      got = list(selectors.select(root, target(), **kw))
+    except Exception as e:   # pylint: disable=broad-except
+      bad(f'{name}: select raised {type(e).__name__}: {str(e)[:80]}', name)
+      continue
+    if sorted(map(id, got)) != sorted(map(id, want)):
+      bad(f'{name}: the selection yields {len(got)} node(s), the reachable Buildables whose callable equals the '
+          f'selected one are {len(want)}', name)
+      continue
+    if name == 'classmethod of the base class':
+      selectors.select(root, target()).set(size=11)
+      if [nd.size for nd in nodes[:3]] != [11, 6, 11]:
+        bad(f'{name}: set(size=11) assigned {[getattr(nd, "size", None) for nd in nodes[:3]]}', name)
+      selectors.select(root, target()).replace('R')
+      if root.x[0] != 'R' or root.a != 'R' or root.b['p'] != 'R' or root.x[1] is not nodes[1]:
+        bad(f'{name}: replace did not substitute every reference to the matched nodes', name)
+  return n, n, viols, [dict(scenario='selection by bound method', cases=n)]
+
+
 def replay(case):
+  if case.get('boundmethod'):
+    r = bound_method_case()
+    m = [v for v in r[2] if v['store'] == case.get('store')]
+    return m[0]['what'] if m else None
   if case.get('tagiter'):
     r = tag_iter_case()
   else:
@@ -240,6 +288,7 @@ def run(tier='quick', seed=0, nproc=16):
             jobs.append((shape, tuple(amap.get(i, 0) for i in range(len(shape))), target, msub, bt))
   res = common.pmap(check_case, gen.shuffled(jobs), nproc)
   res.append(common.guard(tag_iter_case))
+  res.append(common.guard(bound_method_case))
   return common.merge(
       res, 'layerb.prop_C15',
       rule='DAG shapes <= 3 nodes over Config/Partial/list/dict x assignments of callables '
